@@ -53,14 +53,11 @@ Proof. exact find_token_reverse_eof. Qed.
 (* the executable next_lf / prev_lf used above are THE least / greatest *)
 Theorem C11_next_lf_is_least : forall c o p,
   0 <= o -> (next_lf c o = Some p <-> is_next_lf c o p).
-Proof.
-  intros c o p Ho. split; [apply next_lf_some; exact Ho|
-                           apply is_next_lf_fun; exact Ho].
-Qed.
+Proof. exact next_lf_iff. Qed.
 
 Theorem C11_prev_lf_is_greatest : forall c o q,
   prev_lf c o = Some q <-> is_prev_lf c o q.
-Proof. intros c o q. split; [apply prev_lf_some|apply is_prev_lf_fun]. Qed.
+Proof. exact prev_lf_iff. Qed.
 
 (* ---- the line lookup -------------------------------------------------- *)
 (* exact, both directions: inside the budget the LogLine is the line
